@@ -9,24 +9,36 @@ open Xeh Xeh.Compile.CState
 
 /-- the limit is untouched and the number of cells stays within `max H (before)` -/
 def HL (s s' : CState) : Prop :=
-  s'.heapLimit = s.heapLimit ∧ s.heapLen ≤ s'.heapLen ∧ ∀ H, s.heapLimit = some H → s'.heapLen ≤ max H s.heapLen
+  s'.heapLimit = s.heapLimit ∧ s.heapLen ≤ s'.heapLen ∧ (∀ H, s.heapLimit = some H → s'.heapLen ≤ max H s.heapLen) ∧
+  s'.hiddenFlows = s.hiddenFlows ∧ s'.inMeta = s.inMeta
 
 def HR (s : CState) : CRes CState → Prop
   | .ok s' => HL s s'
   | .err _ s' => HL s s'
   | .unsupported _ => True
 
-theorem HL.refl (s : CState) : HL s s := ⟨rfl, Nat.le_refl _, fun H _ => by omega⟩
+theorem HL.refl (s : CState) : HL s s := ⟨rfl, Nat.le_refl _, fun H _ => by omega, rfl, rfl⟩
 
 theorem HL.trans {a b c : CState} (h1 : HL a b) (h2 : HL b c) : HL a c :=
   ⟨h2.1.trans h1.1, Nat.le_trans h1.2.1 h2.2.1, fun H hH => by
-    have x := h1.2.2 H hH
-    have y := h2.2.2 H (by rw [h1.1]; exact hH)
-    omega⟩
+    have x := h1.2.2.1 H hH
+    have y := h2.2.2.1 H (by rw [h1.1]; exact hH)
+    omega, h2.2.2.2.1.trans h1.2.2.2.1, h2.2.2.2.2.trans h1.2.2.2.2⟩
 
-/-- a state that differs from `s` in neither field -/
-theorem hl_same {s s' : CState} (h1 : s'.heapLimit = s.heapLimit) (h2 : s'.heapLen = s.heapLen) : HL s s' :=
-  ⟨h1, by omega, fun H _ => by omega⟩
+/-- the four fields no compiling word but `var` touches -/
+def Same4 (s s' : CState) : Prop :=
+  s'.heapLimit = s.heapLimit ∧ s'.heapLen = s.heapLen ∧ s'.hiddenFlows = s.hiddenFlows ∧ s'.inMeta = s.inMeta
+
+theorem Same4.rfl' {s : CState} : Same4 s s := ⟨rfl, rfl, rfl, rfl⟩
+theorem Same4.trans {a b c : CState} (h1 : Same4 a b) (h2 : Same4 b c) : Same4 a c :=
+  ⟨h2.1.trans h1.1, h2.2.1.trans h1.2.1, h2.2.2.1.trans h1.2.2.1, h2.2.2.2.trans h1.2.2.2⟩
+
+/-- a state that differs from `s` in none of the four fields -/
+theorem hl_same4 {s s' : CState} (h : Same4 s s') : HL s s' :=
+  ⟨h.1, by have := h.2.1; omega, fun H _ => by have := h.2.1; omega, h.2.2.1, h.2.2.2⟩
+
+theorem hl_same {s s' : CState} (h1 : s'.heapLimit = s.heapLimit) (h2 : s'.heapLen = s.heapLen)
+    (h3 : s'.hiddenFlows = s.hiddenFlows) (h4 : s'.inMeta = s.inMeta) : HL s s' := hl_same4 ⟨h1, h2, h3, h4⟩
 
 theorem hr_mono {a b : CState} (hab : HL a b) {r : CRes CState} (h : HR b r) : HR a r := by
   cases r with
@@ -34,15 +46,17 @@ theorem hr_mono {a b : CState} (hab : HL a b) {r : CRes CState} (h : HR b r) : H
   | err e c => exact hab.trans h
   | unsupported u => trivial
 
-theorem bpj_same {s s' : CState} {i : Nat} {r : Int} (e : s.backpatchJump i r = some s') :
-    s'.heapLimit = s.heapLimit ∧ s'.heapLen = s.heapLen := by
+theorem bpj_same {s s' : CState} {i : Nat} {r : Int} (e : s.backpatchJump i r = some s') : Same4 s s' := by
   unfold backpatchJump at e
-  split at e <;> first | (cases e; exact ⟨rfl, rfl⟩) | cases e
+  split at e <;> first | (cases e; exact ⟨rfl, rfl, rfl, rfl⟩) | cases e
 
-theorem popf_same {s s' : CState} {f : Flow} (e : s.popFlow = some (f, s')) :
-    s'.heapLimit = s.heapLimit ∧ s'.heapLen = s.heapLen := by
+theorem popf_same {s s' : CState} {f : Flow} (e : s.popFlow = some (f, s')) : Same4 s s' := by
   unfold popFlow at e
-  split at e <;> first | (cases e; exact ⟨rfl, rfl⟩) | cases e
+  split at e <;> first | (cases e; exact ⟨rfl, rfl, rfl, rfl⟩) | cases e
+
+/-- record updates that leave the four fields alone -/
+theorem same4_of {s s' : CState} (h1 : s'.heapLimit = s.heapLimit := by rfl) (h2 : s'.heapLen = s.heapLen := by rfl)
+    (h3 : s'.hiddenFlows = s.hiddenFlows := by rfl) (h4 : s'.inMeta = s.inMeta := by rfl) : Same4 s s' := ⟨h1, h2, h3, h4⟩
 
 theorem endcaseLoop_hr (fuel : Nat) : ∀ (s : CState) (o : Nat), HR s (endcaseLoop fuel s o) := by
   induction fuel with
@@ -53,10 +67,9 @@ theorem endcaseLoop_hr (fuel : Nat) : ∀ (s : CState) (o : Nat), HR s (endcaseL
     split
     · split
       · rename_i s' hb
-        obtain ⟨a, b⟩ := bpj_same hb
-        exact hr_mono (hl_same a b) (ih s' o)
+        exact hr_mono (hl_same4 (Same4.trans same4_of (bpj_same hb))) (ih s' o)
       · trivial
-    · exact hl_same rfl rfl
+    · exact hl_same4 same4_of
     · exact HL.refl _
 
 theorem repeatLoop_hr (fuel : Nat) : ∀ (s : CState), HR s (repeatLoop fuel s) := by
@@ -67,31 +80,26 @@ theorem repeatLoop_hr (fuel : Nat) : ∀ (s : CState), HR s (repeatLoop fuel s) 
     simp only [repeatLoop]
     split
     · rename_i org s1 hp
-      obtain ⟨a1, b1⟩ := popf_same hp
+      have a1 := popf_same hp
       split
       · rename_i s2 hb
-        obtain ⟨a2, b2⟩ := bpj_same hb
-        exact hr_mono (hl_same (a2.trans a1) (b2.trans b1)) (ih s2)
+        exact hr_mono (hl_same4 (a1.trans (bpj_same hb))) (ih s2)
       · trivial
     · rename_i b s1 hp
-      obtain ⟨a1, b1⟩ := popf_same hp
-      exact hl_same a1 b1
+      exact hl_same4 ((popf_same hp).trans same4_of)
     · rename_i c s1 hp
-      obtain ⟨a1, b1⟩ := popf_same hp
+      have a1 := popf_same hp
       split
       · rename_i b s2 hp2
-        obtain ⟨a2, b2⟩ := popf_same hp2
+        have a2 := popf_same hp2
         split
         · rename_i s3 hb
-          obtain ⟨a3, b3⟩ := bpj_same hb
-          exact hl_same (a3.trans (a2.trans a1)) (b3.trans (b2.trans b1))
+          exact hl_same4 ((a1.trans (a2.trans (bpj_same hb))).trans same4_of)
         · trivial
       · rename_i s2 hp2
-        obtain ⟨a2, b2⟩ := popf_same hp2
-        exact hl_same (a2.trans a1) (b2.trans b1)
-      · exact hl_same a1 b1
-    · obtain ⟨a1, b1⟩ := popf_same (by assumption)
-      exact hl_same a1 b1
+        exact hl_same4 (a1.trans (popf_same hp2))
+      · exact hl_same4 a1
+    · exact hl_same4 (popf_same (by assumption))
     · exact HL.refl _
 
 theorem loopLoop_hr (fuel : Nat) : ∀ (s : CState) (a b : Nat), HR s (loopLoop fuel s a b) := by
@@ -102,31 +110,29 @@ theorem loopLoop_hr (fuel : Nat) : ∀ (s : CState) (a b : Nat), HR s (loopLoop 
     simp only [loopLoop]
     split
     · rename_i org s1 hp
-      obtain ⟨a1, b1⟩ := popf_same hp
-      exact hr_mono (hl_same a1 b1 : HL s (s1.backpatch org _)) (ih _ a b)
+      exact hr_mono (hl_same4 ((popf_same hp).trans same4_of) : HL s (s1.backpatch org _)) (ih _ a b)
     · rename_i f bo s1 hp
-      obtain ⟨a1, b1⟩ := popf_same hp
-      exact hl_same a1 b1
-    · obtain ⟨a1, b1⟩ := popf_same (by assumption)
-      exact hl_same a1 b1
+      exact hl_same4 ((popf_same hp).trans same4_of)
+    · exact hl_same4 (popf_same (by assumption))
     · exact HL.refl _
 
 /-- close an arm of a compiling word: the result was obtained by emitting, pushing / popping flows and backpatching -/
 local macro "hr_close" : tactic => `(tactic| first
-  | exact hl_same rfl rfl
+  | exact hl_same4 same4_of
   | trivial
   | (have h1 := popf_same ‹CState.popFlow _ = some _›
      have h2 := bpj_same ‹CState.backpatchJump _ _ _ = some _›
-     exact hl_same (h2.1.trans h1.1) (h2.2.trans h1.2))
-  | (have h1 := bpj_same ‹CState.backpatchJump _ _ _ = some _›; exact hl_same h1.1 h1.2)
-  | (have h1 := popf_same ‹CState.popFlow _ = some _›; exact hl_same h1.1 h1.2))
+     exact hl_same4 ((h1.trans same4_of).trans h2))
+  | (have h1 := bpj_same ‹CState.backpatchJump _ _ _ = some _›; exact hl_same4 (Same4.trans same4_of h1))
+  | (have h1 := bpj_same ‹CState.backpatchJump _ _ _ = some _›; exact hl_same4 ((Same4.trans same4_of h1).trans same4_of))
+  | (have h1 := popf_same ‹CState.popFlow _ = some _›; exact hl_same4 (h1.trans same4_of)))
 
 theorem immediate_hr (s : CState) (w : String) : HR s (immediate s w) := by
   unfold immediate
   split
   case h_7 => exact endcaseLoop_hr _ _ _
   case h_11 => exact repeatLoop_hr _ _
-  case h_22 => exact hr_mono (hl_same rfl rfl : HL s (s.emit (.loopOp 0))) (loopLoop_hr _ _ _ _)
+  case h_22 => exact hr_mono (hl_same4 same4_of : HL s (s.emit (.loopOp 0))) (loopLoop_hr _ _ _ _)
   all_goals ((try dsimp only) <;> (repeat' split) <;> (try dsimp only) <;> (repeat' split) <;> hr_close)
 
 theorem buildLocal_hr (s : CState) (n : String) : HR s (buildLocal s n) := by
@@ -143,22 +149,22 @@ theorem buildGlobal_hr (s : CState) (n : String) : HR s (buildGlobal s n) := by
         split
         · exact HL.refl _
         · rename_i hlt
-          refine ⟨rfl, by show s.heapLen ≤ s.heapLen + 1; omega, fun H hH => ?_⟩
+          refine ⟨rfl, by show s.heapLen ≤ s.heapLen + 1; omega, fun H hH => ?_, rfl, rfl⟩
           rw [hl] at hH; cases hH
           show s.heapLen + 1 ≤ _
           omega
       · rename_i hl
-        exact ⟨rfl, by show s.heapLen ≤ s.heapLen + 1; omega, fun H hH => by rw [hl] at hH; cases hH⟩
+        exact ⟨rfl, by show s.heapLen ≤ s.heapLen + 1; omega, (fun H hH => by rw [hl] at hH; cases hH), rfl, rfl⟩
   · exact HL.refl _
 
 theorem withName_hr (s : CState) (w n : String) : HR s (withName s w n) := by
   unfold withName
   split
-  · exact hl_same rfl rfl
+  · exact hl_same4 same4_of
   · exact buildLocal_hr s n
   · exact buildGlobal_hr s n
   · split <;> hr_close
-  · exact hl_same rfl rfl
+  · exact hl_same4 same4_of
   · trivial
 
 theorem late_hr (s : CState) (n : String) (t : Nat) : HR s (late s n t) := by
@@ -166,18 +172,18 @@ theorem late_hr (s : CState) (n : String) (t : Nat) : HR s (late s n t) := by
   simp only
   split
   · have h1 := bpj_same ‹CState.backpatchJump _ _ _ = some _›
-    exact hl_same h1.1 h1.2
+    exact hl_same4 ((Same4.trans same4_of h1).trans same4_of)
   · trivial
 
 theorem buildWord_hr (s : CState) (w : String) : HR s (buildWord s w) := by
   unfold buildWord
   split
   · exact HL.refl _
-  · exact hl_same rfl rfl
-  · exact hl_same rfl rfl
+  · exact hl_same4 same4_of
+  · exact hl_same4 same4_of
   · trivial
   · exact immediate_hr s _
-  · exact hl_same rfl rfl
-  · exact hl_same rfl rfl
+  · exact hl_same4 same4_of
+  · exact hl_same4 same4_of
 
 end Xeh.Compile
